@@ -5,6 +5,8 @@ package props
 import (
 	"encoding/json"
 	"fmt"
+	"path/filepath"
+	"strings"
 	"testing"
 
 	"pgregory.net/rapid"
@@ -39,8 +41,47 @@ func c05Gen(rt *rapid.T) c05Case {
 	for i := 0; i < n; i++ {
 		q := gen.SingleTableSelect(rt, db.Tables["t0"])
 		c.Queries = append(c.Queries, c05Query{Q: q, SQL: gen.RenderSelect(gen.NewStyle(rt), q)})
+		// now and then the same query again with one string literal in a different letter
+		// case or spacing: two different queries whose texts differ only inside a literal
+		if v, ok := c05LiteralVariant(q); ok && rapid.IntRange(0, 2).Draw(rt, "variant") == 0 {
+			c.Queries[len(c.Queries)-1].SQL = gen.RenderSelect(gen.Plain(), q)
+			c.Queries = append(c.Queries, c05Query{Q: v, SQL: gen.RenderSelect(gen.Plain(), v)})
+		}
 	}
 	return c
+}
+
+// c05LiteralVariant returns a copy of q in which the first string literal of the
+// WHERE clause that contains a letter or a blank is changed in letter case or spacing.
+func c05LiteralVariant(q gen.Select) (gen.Select, bool) {
+	if q.Where == nil {
+		return q, false
+	}
+	b, _ := json.Marshal(q)
+	var v gen.Select
+	json.Unmarshal(b, &v)
+	for i := range v.Where.Or {
+		for j := range v.Where.Or[i] {
+			for _, o := range []*model.Operand{&v.Where.Or[i][j].L, &v.Where.Or[i][j].R} {
+				if o.Lit == nil || o.Lit.T != "s" {
+					continue
+				}
+				alt := strings.ToUpper(o.Lit.S)
+				if alt == o.Lit.S {
+					alt = strings.ToLower(o.Lit.S)
+				}
+				if alt == o.Lit.S {
+					alt = strings.ReplaceAll(o.Lit.S, " ", "  ")
+				}
+				if alt != o.Lit.S {
+					nv := model.Str(alt)
+					o.Lit = &nv
+					return v, true
+				}
+			}
+		}
+	}
+	return q, false
 }
 
 func keyOf(row []interface{}, idx []int) string {
@@ -193,6 +234,19 @@ func c05Run(c c05Case, st *vlib.Stats) string {
 		}
 		if msg := compareSelect(res, out, exactVal); msg != "" {
 			return fmt.Sprintf("query %d: %s\n  %q", qi, msg, cq.SQL)
+		}
+		// the console's route: Session.ExecQuery prints the result. What it prints must be the
+		// table of the result computed above (same statement, same state, same process).
+		printed, err := eng.ExecCapture(cq.SQL, filepath.Join(WorkDir, "c05-stdout.txt"))
+		if err != nil {
+			return fmt.Sprintf("query %d is valid but Session.ExecQuery failed: %v\n  %q", qi, err, cq.SQL)
+		}
+		if want := mk.FormatTable(res); !strings.HasSuffix(printed, want) {
+			tail := printed
+			if len(tail) > len(want)+200 {
+				tail = tail[len(tail)-len(want)-200:]
+			}
+			return fmt.Sprintf("query %d: Session.ExecQuery printed a different result than evaluating the statement gives\n  %q\n  printed (tail): %q\n  expected table: %q", qi, cq.SQL, tail, want)
 		}
 	}
 	return ""
